@@ -37,7 +37,7 @@ def main(tier, seed):
                 stats["ok_runs"] += r["out"] == "Ok"
     run.notes["allocator_events"] = stats
     if stats["collections"] < 20 or stats["allocs"] < 1000:
-        raise ToolError("the corpus does not exercise the allocator enough: %s" % stats)
+        run.thin_corpus("the corpus does not exercise the allocator enough: %s" % stats)
     validate_traces(run, "VmAllocTrace.tla", dict(Limits="{1}", Charges="{1}", Slack="2048"), ["Inv"], files, "alloc-trace",
                     timeout=2400, site_of=lambda m: "%s(ok=%s)" % (m.get("event", {}).get("e"), m.get("event", {}).get("ok")))
     run.evaluations += stats["runs"]
